@@ -693,7 +693,8 @@ class Interp:
             if self.in_generic_local(env):
                 frame = ctx.generic[-1]
                 if name in frame.outer_names and not frame.is_local(name):
-                    if name in frame.shadowed or self._assigned_first(frame, name):
+                    if name in frame.shadowed or (self._assigned_first(frame, name)
+                                                  and not self._read_after_loop(frame, name)):
                         # the body assigns the name before reading it: a loop-local rebinding
                         frame.shadowed.add(name)
                         env.vars[name] = val
@@ -731,6 +732,21 @@ class Interp:
             for n in _walk_in_order(stmt):
                 if isinstance(n, ast.Name) and n.id == name:
                     return isinstance(n.ctx, ast.Store)
+        return False
+
+    def _read_after_loop(self, frame, name) -> bool:
+        """Is the variable read after the loop in the enclosing function (then the loop's assignment is a fold, not a
+        loop-local rebinding)?"""
+        loop = getattr(frame, 'loop_ast', None)
+        if loop is None or not self.fn_stack:
+            return True
+        end = getattr(loop, 'end_lineno', None)
+        fnode = self.fn_stack[-1].node
+        if end is None:
+            return True
+        for n in ast.walk(fnode):
+            if isinstance(n, ast.Name) and n.id == name and isinstance(n.ctx, ast.Load) and n.lineno > end:
+                return True
         return False
 
     def unpack(self, val, target, env):
@@ -1071,13 +1087,16 @@ class Interp:
             self.exec_block(list(orelse), env)
             return
         saved_body = getattr(self, '_cur_loop_body', None)
+        saved_node = getattr(self, '_cur_loop_node', None)
         self._cur_loop_body = ([ast.Assign(targets=[target], value=ast.Constant(value=None))] + list(body)
                                if isinstance(body, list) else None)
+        self._cur_loop_node = node
         try:
             self.generic_loop(seq, lambda elem: self.assign(target, elem, env),
                               lambda: self.exec_block(body, env), env)
         finally:
             self._cur_loop_body = saved_body
+            self._cur_loop_node = saved_node
         self.exec_block(list(orelse), env)
 
     def _dedup_idiom(self, seq, target, body, env) -> bool:
@@ -1975,6 +1994,8 @@ def _init_frame(frame, interp, env, outer_names, open_only=False):
         frame.shadowed = set()
     if not hasattr(frame, 'body_ast'):
         frame.body_ast = getattr(interp, '_cur_loop_body', None)
+    if not hasattr(frame, 'loop_ast'):
+        frame.loop_ast = getattr(interp, '_cur_loop_node', None)
     return frame
 
 
